@@ -79,7 +79,7 @@ async fn http_raw(web: u16, method: &str, path: &str, body: Option<&[u8]>) -> Op
     stream.write_all(head.as_bytes()).await.ok()?;
     stream.write_all(b).await.ok()?;
     let mut buf = vec![];
-    tokio::time::timeout(Duration::from_secs(5), stream.read_to_end(&mut buf)).await.ok()?.ok()?;
+    tokio::time::timeout(Duration::from_secs(20), stream.read_to_end(&mut buf)).await.ok()?.ok()?;
     let cut = find(&buf, b"\r\n\r\n")?;
     let head = String::from_utf8_lossy(&buf[..cut]).to_string();
     let rest = &buf[cut + 4..];
@@ -110,7 +110,7 @@ async fn http_old(web: u16, method: &str, path: &str, body: Option<&str>) -> Opt
     let req = format!("{method} {} HTTP/1.1\r\nHost: localhost\r\nConnection: close\r\nContent-Type: application/json\r\nContent-Length: {}\r\n\r\n{b}", pct(path), b.len());
     stream.write_all(req.as_bytes()).await.ok()?;
     let mut buf = vec![];
-    tokio::time::timeout(Duration::from_secs(5), stream.read_to_end(&mut buf)).await.ok()?.ok()?;
+    tokio::time::timeout(Duration::from_secs(20), stream.read_to_end(&mut buf)).await.ok()?.ok()?;
     let text = String::from_utf8_lossy(&buf).to_string();
     let (head, rest) = text.split_once("\r\n\r\n")?;
     let status: u16 = head.split(' ').nth(1)?.parse().ok()?;
